@@ -199,6 +199,9 @@ def _decide_path(h, dec, eng, out, res, rng, nvalidate, replay_dir, prop):
             m = m0 if i == 0 else _random_model(eng, rng, base)
             if m is None:
                 continue
+            m = _pinned(h, eng, m, base, res)
+            if m is None:
+                continue
             vals = _model_vals(m, eng)
             try:
                 sym_out = [eval_cell(m, c) for c in out["outputs"]]
@@ -262,7 +265,41 @@ def _decide_path(h, dec, eng, out, res, rng, nvalidate, replay_dir, prop):
         s.pop()
 
 
+def _pinned(h, eng, m, base, res, extra=()):
+    """re-solve with the inputs fixed to m's values and the harness's stub pins (UFs take their true values there)"""
+    if not hasattr(h, "pin"):
+        return m
+    s = z3.Solver()
+    s.set("timeout", 60000)
+    s.add(*base)
+    for nm in eng.input_order:
+        v = eng.inputs[nm]
+        s.add(v == m.eval(v, model_completion=True))
+    s.add(*h.pin(_model_vals(m, eng), m))
+    s.add(*extra)
+    if _check(s, res) == z3.sat:
+        return s.model()
+    return None
+
+
 def _replay(h, eng, m, viol, res, replay_dir, prop, dec):
+    if hasattr(h, "pin"):
+        # look for a violating input assignment that stays violating when the stubs take their true values
+        vio = z3.Or(*[_to_z3_bool(c) for _, c in viol])
+        s = z3.Solver()
+        s.set("timeout", SOLVER_TIMEOUT_MS)
+        s.add(*eng.pc)
+        s.add(vio)
+        cur = m
+        for _ in range(8):
+            m2 = _pinned(h, eng, cur, list(eng.pc), res, extra=[vio])
+            if m2 is not None:
+                m = m2
+                break
+            s.add(z3.Or(*[eng.inputs[nm] != cur.eval(eng.inputs[nm], model_completion=True) for nm in eng.input_order]))
+            if _check(s, res) != z3.sat:
+                break
+            cur = s.model()
     vals = _model_vals(m, eng)
     labels = []
     for l, c in viol:
